@@ -9,18 +9,18 @@ from ..harness import Run
 def ops_jobs(run: Run, prop: str, quick: bool, n_quick: int = 200, n_thorough: int = 4000, calls_per_op: int = 3):
     jobs, info = [], {}
     for label, d in docs.matrix_docs():
-        j = run.job(d, want=[], plan={"fn": "ops", "args": {"seed": seed(), "calls_per_op": 3, "import": False}}, cfg={"literal_enums": label.startswith("3.1")})
+        j = run.job(d, want=["manifest"], plan={"fn": "ops", "args": {"seed": seed(), "calls_per_op": 3, "import": True}}, cfg={"literal_enums": label.startswith("3.1")})
         info[j["id"]] = {"label": "matrix:" + label, "cfg": {"literal_enums": label.startswith("3.1")}, "features": {label.split(":")[1]}, "deterministic_valid": True}
         jobs.append(j)
     for label, d in docs.sharing_docs():
-        j = run.job(d, want=[], plan={"fn": "ops", "args": {"seed": seed(), "calls_per_op": 3, "import": False}}, cfg={})
+        j = run.job(d, want=["manifest"], plan={"fn": "ops", "args": {"seed": seed(), "calls_per_op": 3, "import": True}}, cfg={})
         info[j["id"]] = {"label": label, "cfg": {}, "features": {"sharing", label}, "deterministic_valid": True}
         jobs.append(j)
     n = n_quick if quick else n_thorough
     for i in range(n):
         d, feats = docs.random_doc((prop, seed(), i), hostile=[0, 0, 0.3][i % 3], n_ops=None if i % 2 else 6)
         cfg = {"literal_enums": i % 5 == 4}
-        j = run.job(d, want=[], plan={"fn": "ops", "args": {"seed": seed() * 100003 + i, "calls_per_op": calls_per_op, "import": False}}, cfg=cfg)
+        j = run.job(d, want=["manifest"], plan={"fn": "ops", "args": {"seed": seed() * 100003 + i, "calls_per_op": calls_per_op, "import": True}}, cfg=cfg)
         info[j["id"]] = {"label": f"random:{i}", "cfg": cfg, "features": feats}
         jobs.append(j)
     return jobs, info
@@ -68,3 +68,26 @@ def derived_local_capture(man: dict) -> str | None:
                     if n + suffix in py:
                         return "list" + suffix
     return None
+
+
+def endpoint_local_capture(man: dict) -> bool:
+    """The parameter flavour of C18's finding: an array parameter x and a sibling whose python name is x_item /
+    x_item_data / json_x (locals the endpoint template derives from x)."""
+    for e in man.get("endpoints") or []:
+        py = {p["python_name"]: p for loc in e["params"].values() for p in loc}
+        for n, p in py.items():
+            derived = ["json_" + n]
+            if p["kind"] == "ListProperty" or (p["kind"] == "UnionProperty" and any(i["kind"] == "ListProperty" for i in p.get("inners") or [])):
+                derived += [n + "_item", n + "_item_data"]
+            if any(dn in py for dn in derived):
+                return True
+    return False
+
+
+def import_defect(pairs) -> bool:
+    """Did import_all (M-IMPORT) find modules of this package that do not import / resolve?  Then decode fall-through
+    and missing-module exceptions inside it are consequences of C01's finding, not new violations."""
+    for a, x in pairs:
+        if a["a"] == "import_all" and not x.get("action_exc") and (x.get("unresolved") or x.get("errors") or x.get("syntax")):
+            return True
+    return False
